@@ -3,11 +3,13 @@ and which components ran real code vs. a stub (copied into the evidence)."""
 
 # property -> [(world module, variant kwargs for generate(), weight)]
 PLANS = {
+  'C07': [('w_pool', {}, 1.0)],
   'C10': [('w_timer', {}, 1.0)],
 }
 
 # property -> (quick runs, thorough runs); both are also bounded by a wall budget
 RUNS = {
+  'C07': (1200, 30000),
   'C10': (1500, 40000),
 }
 
